@@ -237,6 +237,15 @@ class AstToDjangoQVisitor(visitor.NodeVisitor):
         django_cls = self.visit(node.comparator)
         rhs = self.visit(node.right)
 
+        # Django wraps a lookup on the left-hand side in parentheses, but not
+        # one on the right-hand side. (In)equality is symmetric, so swap them:
+        if (
+            isinstance(rhs, lookups.Lookup)
+            and not isinstance(lhs, lookups.Lookup)
+            and django_cls in (lookups.Exact, NotEqual)
+        ):
+            lhs, rhs = rhs, lhs
+
         return django_cls(lhs, rhs)
 
     def visit_And(self, node: ast.And) -> Callable[[Q, Q], Q]:
